@@ -1179,6 +1179,16 @@ func (in *interp) runStub(fr *frame, fi *fnInfo, args []value) value {
 			}
 		}
 		return in.makeError("stubbed json.Unmarshal: no object bound to these bytes")
+	case "edverify":
+		// idealised ed25519.Verify(pub *[32]byte, msg []byte, sig *[64]byte): the signature says whether it
+		// is valid (byte 0 == 1) and which key made it (byte 2 == first byte of the public key)
+		pp, _ := args[0].(*value)
+		sp, _ := args[2].(*value)
+		if pp == nil || sp == nil {
+			in.rtPanic(fr.caller, "invalid memory address or nil pointer dereference")
+		}
+		pub, sig := (*pp).(array), (*sp).(array)
+		return in.ts.And(in.ts.Eq(in.asTerm(sig[0], "sig"), in.ts.BV(1, 8)), in.ts.Eq(in.asTerm(sig[2], "sig"), in.asTerm(pub[0], "pub")))
 	case "argbyte":
 		// argbyte:<arg>:<index>:<value> : result = (arg[index] == value)
 		var ai, bi, bv int
